@@ -472,12 +472,18 @@ def c08(m, obs, mech, cals=None):
     n_tasks = 0
     n_slots = 0
     for t in m["tasks"]:
-        if t["container"] or "effort_min" not in t or len(t["alloc"]) != 1 or t.get("alt"):
-            continue
-        rid = t["alloc"][0]
-        if indep.limit_scopes(m, t, rid, tm):
+        if t["container"] or "effort_min" not in t or len(t["alloc"]) != 1:
             continue
         tid = indep.tid(t["path"])
+        rid = t["alloc"][0]
+        if t.get("alt"):
+            # an allocation with alternatives: "its resource" is the candidate that was booked
+            bookedon = sorted(obs.per_task.get(tid, {}))
+            if len(bookedon) != 1 or bookedon[0] not in ([rid] + list(t["alt"])):
+                continue
+            rid = bookedon[0]
+        if indep.limit_scopes(m, t, rid, tm):
+            continue
         o = obs.T.get(tid)
         if not o or not o["sch"] or o["start"] is None or o["end"] is None:
             continue
